@@ -2,6 +2,7 @@
 EXTENDS ClientMC, Json
 ASSUME ndJsonSerialize("cscen_K1.ndjson", SetToSeq({s \in K1 : SegOK(s)}))
 ASSUME ndJsonSerialize("cscen_K2.ndjson", SetToSeq(K2))
+ASSUME ndJsonSerialize("cscen_K3.ndjson", SetToSeq(K3))
 ASSUME PrintT(<<"SCENARIOS", Cardinality({s \in K1 : SegOK(s)}), Cardinality(K2)>>)
 GInit == InitWith(CHOOSE s \in K2 : TRUE)
 GNext == UNCHANGED vars
